@@ -189,7 +189,16 @@ func (x *X) loopCore(f *Frame, st *State, L *loopDesc) *State {
 		threshold = c.symN
 		s1 := st.clone()
 		havocVars(s1)
+		var mhs []string
 		for h := range modHeaps {
+			mhs = append(mhs, h)
+		}
+		sort.Strings(mhs) // deterministic symbol numbering
+		for _, h := range mhs {
+			if h == lazyAllName {
+				s1.lazyAll = true
+				continue
+			}
 			// direct assignment: this havoc must not be logged as a write of the enclosing loop
 			s1.heaps[h] = c.fresh("dh", s1.hsorts[h])
 		}
@@ -311,6 +320,11 @@ func (x *X) loopCore(f *Frame, st *State, L *loopDesc) *State {
 	}
 	sort.Strings(hnames)
 	for _, h := range hnames {
+		if h == lazyAllName {
+			// the body calls something that may change every heap, including ones not seen yet
+			head.lazyAll = true
+			continue
+		}
 		m := mods[h]
 		srt := head.hsorts[h]
 		cur := c.heap(head, h, srt)
